@@ -97,7 +97,7 @@ CHECKS = {
         "multi-query histories checks (observations include the id counter after every operation). The reference search of "
         "each query is checked as oracle on every request, whatever preceded it. Known finding (genuine, recorded, not "
         "repairable without removing the per-query counter reset): a query that is built, then another query is BUILT, then "
-        "the first is asked.", ref="7/C22",
+        "the first is asked. A law of the reference for cut-free programs (Properties/C22laws.v, Proofs/ForgetLaw.v): two worlds that agree on id counter, stop flag and stop hook - whatever has been written to the output before - give the same answers and end in worlds that agree again (C22_answers_forget_output).", ref="7/C22",
    technique="Coq proof: frame theorem + constructor-forgets (Properties/C22.v) + model-vs-implementation correspondence on multi-query histories + reference-search oracle per query"),
  "C23": dict(
    text="PARTIAL only with respect to real time (when the OS runs a timer thread is outside every model). Machine-checked: "
